@@ -1,7 +1,7 @@
 (* C04 - "running is total", Part E.4: one instruction of ANY opcode (step_pre3), the dispatch loop, the run. *)
 From Coq Require Import NArith ZArith List Lia Bool.
 From Cao Require Import ListUtil Bits Stacks Vm VmProofs C04VmProofs C04VmProofs2 C04VmProofs3 C04VmProofs4 C04VmProofs5
-  C04VmProofs6.
+  C04VmProofs6 C04VmProofs6b.
 Import ListNotations.
 
 Section Final.
@@ -22,8 +22,7 @@ Hypothesis Hre : reenter_ok P reenter start.
 
 (* the conditions on one instruction that are not structural:
    the heap is acyclic (A-37) and holds no native function value that calls back; ForEach in a Debug build finds
-   a non-negative counter; RegisterUpvalue captures an existing variable; CallNative does not name one of the
-   stdlib natives __min / __max / __sort (not covered) *)
+   a non-negative counter; RegisterUpvalue captures an existing variable *)
 Record side (ip0 : N) (s : state) : Prop := mkSide {
   sd_acyclic : heap_acyclic (st_heap s);
   sd_natives : natives_simple (st_heap s);
@@ -32,9 +31,7 @@ Record side (ip0 : N) (s : state) : Prop := mkSide {
                  to_i64 F (st_heap s) (sget s (off + N.to_nat lv)) = Some i -> (0 <= i)%Z;
   sd_reg : opcode_at P ip0 = 45%N ->
            forall index is_local, read_le (p_code P) (ip0 + 1) 1 = Some index ->
-             read_le (p_code P) (ip0 + 1 + 1) 1 = Some is_local -> reg_upvalue_ok s index is_local;
-  sd_native : opcode_at P ip0 = 4%N ->
-              forall h n, op_u32 P (ip0 + 1) = Some h -> find_native h all_natives = Some n -> covered_native n = true
+             read_le (p_code P) (ip0 + 1 + 1) 1 = Some is_local -> reg_upvalue_ok s index is_local
 }.
 
 Definition step_pre3 (ip0 : N) (s : state) : Prop :=
@@ -59,20 +56,14 @@ Qed.
 
 (* ---- natives at the instruction level ---- *)
 Lemma native_step_full h ip s : ninv s -> ipok ip -> (0 < code_len P)%N ->
-  (forall n, find_native h all_natives = Some n -> covered_native n = true) ->
-  no_stop (native_step F P reenter h ip s) /\ res_ok s (native_step F P reenter h ip s) /\
-  (forall ip' s', native_step F P reenter h ip s = SNext ip' s' ->
-     heap_acyclic (st_heap s') /\ natives_simple (st_heap s')).
+  no_stop (native_step F P reenter h ip s) /\ res_ok s (native_step F P reenter h ip s).
 Proof.
-  intros Hn Hip Hl Hcov. unfold native_step.
-  pose proof (call_native_ok F P reenter start Hcode Hre Hl h s Hn Hcov) as H.
-  destruct (call_native F P reenter h s) as [v s1|e s1|]; cbn [nres_ok] in H; [| |contradiction].
-  - destruct H as [[(Hv & A & B) Hlen] _]. split; [exact I|]. split.
-    + cbn [C04VmProofs5.res_ok]. split; [split; [apply Hv | exact Hlen] | split; [apply Hv | exact Hip]].
-    + intros ip' s' E. inversion E; subst. split; assumption.
-  - destruct H as [(Hv & A & B) Hlen]. split; [exact I|]. split.
-    + cbn [C04VmProofs5.res_ok]. split; [apply Hv | exact Hlen].
-    + intros ip' s' E. discriminate.
+  intros Hn Hip Hl. unfold native_step.
+  pose proof (call_native_ok0 F P reenter start Hcode Hre Hl h s Hn) as H.
+  destruct (call_native F P reenter h s) as [v s1|e s1|]; cbn [nres_ok0] in H; [| |contradiction].
+  - destruct H as ([I1 Hc1] & Hlen & _). split; [exact I|].
+    cbn [C04VmProofs5.res_ok]. split; [split; [exact I1 | exact Hlen] | split; [exact Hc1 | exact Hip]].
+  - destruct H as ([I1 Hc1] & Hlen). split; [exact I|]. cbn [C04VmProofs5.res_ok]. split; [exact I1 | exact Hlen].
 Qed.
 
 Section OneStep.
@@ -96,13 +87,6 @@ Proof. lia. Qed.
 Lemma next_ok k : opcode_at P ip0 = k -> ipok (ip0 + 1 + operand_len k).
 Proof. intros <-. apply (co_next P start Hcode ip0 Hs Hl). Qed.
 
-(* natives reached from CallFunction: the callee object is in the heap, so it names a simple native *)
-Lemma native_from_heap h : (exists a, hget (st_heap s) a = Some (ONative h)) ->
-  forall n, find_native h all_natives = Some n -> covered_native n = true.
-Proof.
-  intros [a Ha] n En. pose proof (sd_natives ip0 s Hsd a h n Ha En) as H. destruct n; try discriminate; reflexivity.
-Qed.
-
 (* ---- no abort, every opcode ---- *)
 Lemma ns3_4 : opcode_at P ip0 = 4%N -> no_stop (step F bld P reenter ip0 s).
 Proof.
@@ -110,9 +94,8 @@ Proof.
   destruct (op_u32_some P (ip0 + 1)) as [h Eh].
   { destruct (co_opcode P start Hcode ip0 Hs Hl) as [_ H]. rewrite Hk in H. change (operand_len 4) with 4%N in H. exact H. }
   rewrite Eh.
-  refine (proj1 (native_step_full h (ip0 + 1 + 4) s Hninv _ code_nonempty _)).
-  - pose proof (next_ok 4%N Hk) as H. exact H.
-  - intros n En; apply (sd_native ip0 s Hsd Hk h n Eh En).
+  refine (proj1 (native_step_full h (ip0 + 1 + 4) s Hninv _ code_nonempty)).
+  pose proof (next_ok 4%N Hk) as H. exact H.
 Qed.
 
 Lemma ns3_11 : opcode_at P ip0 = 11%N -> no_stop (step F bld P reenter ip0 s).
@@ -128,10 +111,9 @@ Proof.
   destruct (spop s) as [s1 fv] eqn:E1. cbn [snd] in Et. subst fv.
   destruct (inv_spop P start _ _ _ E1 Hi) as (I1 & _ & Hh & Hca & _).
   rewrite Hh, Ea.
-  refine (proj1 (native_step_full h (ip0 + 1) s1 _ _ code_nonempty _)).
+  refine (proj1 (native_step_full h (ip0 + 1) s1 _ _ code_nonempty)).
   - apply (ninv_same_heap P start s s1 Hninv I1); [rewrite Hca; exact Hc | exact Hh].
   - pose proof (next_ok 11%N Hk) as H. change (operand_len 11) with 0%N in H. rewrite N.add_0_r in H. exact H.
-  - apply native_from_heap; eauto.
 Qed.
 
 Theorem step_no_abort_all : forall a s', step F bld P reenter ip0 s <> SStop a s'.
@@ -144,11 +126,10 @@ Qed.
 
 (* ---- preservation, every opcode ---- *)
 Lemma pv_native_here h ip s1 : C04VmProofs4.vm_inv P start s1 -> ipok ip -> st_heap s1 = st_heap s ->
-  (forall n, find_native h all_natives = Some n -> covered_native n = true) ->
   res_ok s1 (native_step F P reenter h ip s1).
 Proof.
-  intros [I1 Hc1] Hip Hh Hcov.
-  exact (proj1 (proj2 (native_step_full h ip s1 (ninv_same_heap P start s s1 Hninv I1 Hc1 Hh) Hip code_nonempty Hcov))).
+  intros [I1 Hc1] Hip Hh.
+  exact (proj2 (native_step_full h ip s1 (ninv_same_heap P start s s1 Hninv I1 Hc1 Hh) Hip code_nonempty)).
 Qed.
 
 Theorem step_preserves : res_ok s (step F bld P reenter ip0 s).
@@ -157,14 +138,13 @@ Proof.
   (* natives reached through CallFunction *)
   assert (Hnat : forall h ip s1, C04VmProofs4.vm_inv P start s1 -> ipok ip -> st_heap s1 = st_heap s ->
             (exists a, hget (st_heap s) a = Some (ONative h)) -> res_ok s1 (native_step F P reenter h ip s1)).
-  { intros h ip s1 Hv1 Hip Hh Hex. apply pv_native_here; auto. apply native_from_heap; exact Hex. }
+  { intros h ip s1 Hv1 Hip Hh Hex. apply pv_native_here; auto. }
   unfold step. cbv zeta. fold (opcode_at P ip0).
   remember (opcode_at P ip0) as k eqn:Ek. symmetry in Ek.
   assert (Hnext : ipok (ip0 + 1 + operand_len k)) by (apply next_ok; exact Ek).
   assert (H4 : k = 4%N -> res_ok s (i_4 F P reenter k ip0 (ip0 + 1) s)).
   { intros ->. unfold i_4. destruct (op_u32 P (ip0 + 1)) as [h|] eqn:Eh; [|exact I].
-    apply pv_native_here; [exact Hinv | exact Hnext | reflexivity |].
-    intros n En. apply (sd_native ip0 s Hsd Ek h n Eh En). }
+    apply pv_native_here; [exact Hinv | exact Hnext | reflexivity]. }
   destruct k as [|p]; [|do 6 (try destruct p as [p|p|]); try lia];
     try (apply H4; reflexivity); clear H4;
     cbn [operand_len] in Hnext; rewrite ?N.add_0_r in Hnext.
